@@ -1529,8 +1529,12 @@ func (b *bsiGroup) baseValue(op pql.Token, value int64) (baseValue int64, outOfR
 	if op == pql.GT || op == pql.GTE {
 		if value > max {
 			return baseValue, true
-		} else if value > min {
+		} else if value >= min {
 			baseValue = int64(value - b.Base)
+		} else {
+			// Every representable value is >= min; the caller turns a GT/GTE
+			// predicate below the representable range into not-null.
+			baseValue = int64(min - b.Base)
 		}
 	} else if op == pql.LT || op == pql.LTE {
 		if value < min {
